@@ -138,6 +138,12 @@ def run_case(case, built=None, keep_obs=False):
                 findings += monitors.check_second_manager(obs, ro, cancelled=was_cancelled)
             if case.get('store') and not was_cancelled:
                 findings += monitors.check_saves(obs, ro, ref, prog)
+        if faults and not was_cancelled and case.get('events2') \
+                and not all(name == 'save' for name, _ in case.get('collab_faults')):
+            # the FIRST event manager raises; the second one does not, so the lifecycle grammar binds for it (C14)
+            findings += [f for f in monitors.check_second_manager(obs, ro, cancelled=True)
+                         if f['kind'] in ('pipeline_complete_without_start', 'pipeline_start_not_first_once',
+                                          'node_complete_without_start', 'event_after_pipeline_complete')]
         if faults and not was_cancelled and case.get('events', True) \
                 and all(name == 'save' for name, _ in case.get('collab_faults')):
             # only the artifact store raises, the event managers do not: the lifecycle grammar (C14) still binds
@@ -152,6 +158,10 @@ def run_case(case, built=None, keep_obs=False):
         r0 = obs.runs[0]
         stats['outcome_class'] = (r0.outcome, hashlib.sha1(repr(r0.value).encode()).hexdigest()[:10]
                                   if r0.outcome == 'value' else None)
+    shared = [r for r in obs.trace if r['k'] == 'manager_shared']
+    if shared:
+        findings.append(monitors.F(['C08', 'C07'], 'event_manager_object_shared_by_runs', runs=sorted({str(r['run']) for r in shared})[:4],
+                                   n=len(shared)))
     if getattr(obs, 'meta_obj', None) is not None and obs.meta_obj != obs.meta_before:
         findings.append(monitors.F(['C07', 'C08'], 'caller_meta_mutated', before=sorted(map(str, obs.meta_before)),
                                    after=sorted(map(str, obs.meta_obj))))
